@@ -407,7 +407,7 @@ def aten_getattr(interp, t: ATen, name):
             return ATen(U("cast", ArrS, t.term, dtype), t.shape_l, dtype, t.kind, real=t.real)
         return _m(to)
     if name == "item":
-        return _m(lambda interp: item_of(t) if t.rank == 0 or True else None)
+        return _m(lambda interp: item_of(t))
     if name == "isfinite":
         def isfinite(interp):
             r = t.method("isfinite")
@@ -488,7 +488,9 @@ def aten_getattr(interp, t: ATen, name):
     if name == "reshape":
         def reshape(interp, shp):
             shp = list(shp) if isinstance(shp, (tuple, list)) else list(shp.lead)
-            return mk("reshape", [t] + shp, shp, t.dtype, t.kind)
+            single = t.rank == 0 and all(isinstance(x, int) and x == 1 for x in shp)
+            r = mk("reshape", [t] + shp, shp, t.dtype, t.kind, real=item_of(t) if single else None)
+            return r
         return _m(reshape)
     if name == "size":
         return _m(lambda interp, dim=None: V.Shape(list(t.shape_l)) if dim is None else t.shape_l[dim])
@@ -574,6 +576,14 @@ def t_eye(interp, n, dtype=None, device=None):
 @prim("numpy.eye")
 def n_eye(interp, n, dtype=None):
     return mk("eye", [n], [n, n], dtype if dtype is not None else V.U("float64", DtypeS), "numpy")
+
+
+@prim("numpy.array")
+def n_array(interp, xs, dtype=None):
+    c = V.concrete_iter(xs)
+    if c is None:
+        raise Unsupported("numpy.array of a symbolic sequence")
+    return mk("np_array", [as_real(x) for x in c], [len(c)], dtype if dtype is not None else V.U("float64", DtypeS), "numpy")
 
 
 @prim("torch.zeros_like")
